@@ -132,16 +132,30 @@ def _exec_body(c, sym=False):
             def setrlimit(res, lim):
                 limits.append((None, res, lim))
 
+    # the clock: an arbitrary instant t0 at the first reading, t0 + dt (dt >= 0)
+    # afterwards
+    t0 = c.get('t0', 1000.0)
+    dt = c.get('dt', 0.25)
+    readings = []
+
+    class FakeTime:
+        @staticmethod
+        def time():
+            readings.append(1)
+            return t0 if len(readings) == 1 else t0 + dt
+
     _set_args(cmd=['s'], unchecked=False, memout=None, timeout=c['timeout'])
-    saved = (checker.subprocess, checker.resource, checker.math)
+    saved = (checker.subprocess, checker.resource, checker.math, checker.time)
     checker.subprocess = FakeSubprocess
     checker.resource = FakeResource
+    checker.time = FakeTime
     if sym:
         checker.math = ContractMath()
     try:
         ri = checker.execute(['s'], 'f.smt2', c['timeout'])
     finally:
-        checker.subprocess, checker.resource, checker.math = saved
+        (checker.subprocess, checker.resource, checker.math,
+         checker.time) = saved
     c = {k: unwrap(v) for k, v in c.items()}
     ri = checker.RunInfo(*[unwrap(x) for x in ri])
     comm = [(e[0], unwrap(e[1])) for e in log if e[0] == 'communicate']
@@ -163,13 +177,24 @@ def _exec_body(c, sym=False):
             return f'outcome not reported faithfully: {ri!r}'
         if ('kill',) in log:
             return 'finished command was killed'
+        # the recorded run time (from which the default time limit is
+        # derived) is the time between the two clock readings
+        rt = unwrap(ri.runtime)
+        want = unwrap(dt)
+        if not (want - 0.001 <= rt <= want + 0.001):
+            return (f'recorded run time {rt!r} although the command ran for '
+                    f'{want!r} s (clock {unwrap(t0)!r} -> '
+                    f'{unwrap(t0) + want!r})')
     return None
 
 
 def make_exec(m):
     def h(times_out: bool, rc: int, out: str, err: str, prlimit: bool):
         timeout = fresh_real('timeout')
+        t0 = fresh_real('t0')
+        dt = fresh_real('dt')
         assume(0.0 < timeout <= 1000000.0)
+        assume(0.0 <= t0 <= 4000000000.0 and 0.0 <= dt <= 1000000.0)
         assume(len(out) <= m and len(err) <= m)
         r = _exec_body(dict(locals()), sym=True)
         if r:
